@@ -24,7 +24,8 @@ RULE = ("job = seed -> (client settings, server settings) from the restriction "
         "validate(s); every cipher implementation named in the result is "
         "loadable.  distinct = digest(settings pair, key); non-trivial = the "
         "predicate held (connect clause exercised)"
-        " Session cache / ticket keys / a shared external PSK are drawn next to the lattice, and a second connection between the same settings offers the first one's session: it must connect as well.")
+        " Session cache / ticket keys / a shared external PSK are drawn next to the lattice, and a second connection between the same settings offers the first one's session: it must connect as well."
+        ' Out-of-domain values must make validate() raise; SRP flavour with the client key-size window on / next to the size of the server group.')
 LEVEL_TEXT = ("Seeded exploration over settings pairs.  The connect clause "
               "is judged by a deliberately conservative predicate (says "
               "'don't know' whenever the documented semantics leave room), "
